@@ -143,7 +143,7 @@ PROPS["C18"] = {
     "outside": "the parking-lot stack (parking_lot::RawMutex is dependency code for engine M, and Kani 0.68 crashes with an internal compiler error in its intrinsics pass when a harness reaches it -- the harness was removed); METRICS/DEBUG=true instantiations; 'long free-running multi-core runs' (not solver-based)",
     "assumptions": [_M_NOTE],
     "m": [M("c18_stack_push_vs_pop_n2_k1"), M("c18_stack_3thr_n2_k1"), M("c18_stack_full_boundary_n2_k2"), M("c18_queue_atomic_lin_p_cc_n2_k1", "thorough"), M("c18_queue_fullsync_lin_p_cc_n2_k1"),
-          M("c18_stack_3thr_n4_k2", "thorough"), M("c18_stack_2x3_n2_k1", "thorough"), M("c18_queue_atomic_lin_pp_c_c_n2_k1", "thorough")],
+          M("c18_stack_3thr_n4_k2", "thorough"), M("c18_stack_2x3_n2_k1", "thorough"), M("c18_queue_atomic_lin_pp_c_c_n2_k1", "thorough"), M("c18_queue_atomic_lin_c_pc_n2_k1", "thorough")],
     "k": [H("c18::c18_atomic_stack_n2_l6", inst="non_blocking_atomic_stack::Stack<u32,2,false,false>", bounds="L=6", oracle="array LIFO model", stubs=_C08_STUBS),
           H("c18::c18_atomic_queue_n2_l5", inst="atomic::NonBlockingQueue<u32,2,0>", bounds="L=5", oracle="array FIFO model", stubs=_C08_STUBS),
           H("c18::c18_full_sync_queue_n2_l5", inst="full_sync::NonBlockingQueue<u32,2,0>", bounds="L=5", oracle="array FIFO model", stubs=_C08_STUBS)],
